@@ -114,15 +114,16 @@ theorem preload_first (f : Nat) (s : St) (n : Name) (ld : Loader)
   have h1 : Model.loaderLoop s n Model.loLoaders [] = .inl ld := by
     rw [Refine.loaderLoop_eq]; simp [Spec.findLoader, hp]
   refine ⟨h1, ?_⟩
-  simp only [Model.loRequire, hun, h1]
-  rcases runLoader { require := Model.loRequire f, module := Model.loModule } (s.setLoaded n .sentinel) ld n with ⟨s2, r⟩
+  simp only [Model.loRequire, Model.loRequireL, hun, h1]
+  rcases runLoader { require := Model.loRequireL Model.loLoaders f, module := Model.loModule } (s.setLoaded n .sentinel) ld n with ⟨s2, r⟩
   cases r <;> simp [finish]
 
-/-- without a preload entry the first existing file among the path candidates is what runs. -/
+/-- without a preload entry the first existing file among the path candidates (if it loads) is what runs. -/
 theorem path_search_second (s : St) (n : Name) (p : String) (b : Beh) (hp : s.preload n = none)
-    (hfind : (Spec.candidates s n).find? (fun p => (s.files p).isSome) = some p) (hb : s.files p = some b) :
+    (hfind : (Spec.candidates s n).find? (fun p => (s.files p).isSome) = some p) (hb : s.files p = some b)
+    (hok : s.broken p = false) :
     Model.loaderLoop s n Model.loLoaders [] = .inl { src := .file, key := p, beh := b } := by
-  rw [Refine.loaderLoop_eq]; simp [Spec.findLoader, hp, hfind, hb]
+  rw [Refine.loaderLoop_eq]; simp [Spec.findLoader, hp, hfind, hb, hok]
 
 /-! ## loop_reported -/
 
@@ -150,8 +151,8 @@ theorem require_runs_loader_under_sentinel (f : Nat) (s : St) (n : Name) (ld : L
       finish n (runLoader { require := Model.loRequire f, module := Model.loModule } (s.setLoaded n .sentinel) ld n)
     ∧ (s.setLoaded n .sentinel).loaded n = .sentinel := by
   refine ⟨?_, by simp⟩
-  simp only [Model.loRequire, hun, hl]
-  rcases runLoader { require := Model.loRequire f, module := Model.loModule } (s.setLoaded n .sentinel) ld n with ⟨s2, r⟩
+  simp only [Model.loRequire, Model.loRequireL, hun, hl]
+  rcases runLoader { require := Model.loRequireL Model.loLoaders f, module := Model.loModule } (s.setLoaded n .sentinel) ld n with ⟨s2, r⟩
   cases r <;> simp [finish]
 
 /-- direct loop: a loader whose first action is an unprotected `require` of its own module fails with the
@@ -179,6 +180,123 @@ theorem failed_load_leaves_sentinel (f : Nat) (s : St) (n : Name) (ld : Loader)
   rw [h]
   simp [runLoader, hb, runSteps, runFinal, finish]
 
+/-! ## what a failed require leaves behind, stage by stage (and what the next require does)
+
+ stage                                          package.loaded[n] afterwards      the next `require n`
+ no searcher finds n                            unchanged (`missing_lists_tried`) searches again
+ file found, does not load (syntax, unreadable) unchanged                         searches again: loads the repaired file
+ loader raises                                  the sentinel                      "loop or previous error" until cleared
+ loader assigns package.loaded[n], then raises  what it assigned                  returns that value, runs nothing
+ loader returns false / nil after assigning nil false / true                      runs again / cached            -/
+
+/-- the file found first on the path does not load: the error is raised while the searchers are consulted, the
+    state is unchanged — in particular NO sentinel is stored (loadlib.c: loader_Lua → loaderror, before ll_require
+    stores the sentinel). -/
+theorem unloadable_file_fails_in_search (f : Nat) (s : St) (n : Name) (p : String)
+    (hun : (s.loaded n).truthy = false) (hp : s.preload n = none)
+    (hfind : (Spec.candidates s n).find? (fun p => (s.files p).isSome) = some p) (hb : s.broken p = true) :
+    Model.loRequire (f + 1) s n = (s, .err (.loadErr p)) := by
+  have h1 : Model.loaderLoop s n Model.loLoaders [] = .inr (.loadErr p) := by
+    rw [Refine.loaderLoop_eq]; simp [Spec.findLoader, hp, hfind, hb]
+  simp only [Model.loRequire, Model.loRequireL, hun, h1]
+  rfl
+
+/-- … so once that file has been rewritten, the next require runs the new code (under the sentinel, once). -/
+theorem repaired_file_loads (f : Nat) (s : St) (n : Name) (p : String) (b : Beh)
+    (hun : (s.loaded n).truthy = false) (hp : s.preload n = none)
+    (hfind : (Spec.candidates s n).find? (fun p => (s.files p).isSome) = some p) :
+    Model.loRequire (f + 1) (s.writeFile p b) n =
+      finish n (runLoader { require := Model.loRequire f, module := Model.loModule }
+        ((s.writeFile p b).setLoaded n .sentinel) { src := .file, key := p, beh := b } n) := by
+  have hsome : (s.files p).isSome = true := by simpa using List.find?_some hfind
+  have hfiles : (fun q => ((s.writeFile p b).files q).isSome) = (fun q => (s.files q).isSome) := by
+    funext q
+    by_cases hq : q = p
+    · subst hq; simp [St.writeFile, hsome]
+    · simp [St.writeFile, hq]
+  have hfind' : (Spec.candidates (s.writeFile p b) n).find? (fun q => ((s.writeFile p b).files q).isSome) = some p := by
+    rw [hfiles]; exact hfind
+  exact (require_runs_loader_under_sentinel f (s.writeFile p b) n _ hun
+    (path_search_second (s.writeFile p b) n p b hp hfind' (by simp [St.writeFile]) (by simp [St.writeFile]))).1
+
+/-- a loader that assigns package.loaded[n] and then raises: the error propagates, the assigned value stays, and
+    every later `require n` returns it without running anything (as in Lua 5.1: nothing is rolled back). -/
+theorem failed_after_assigning_keeps_assignment (f : Nat) (s : St) (n : Name) (ld : Loader)
+    (hun : (s.loaded n).truthy = false) (hl : Model.loaderLoop s n Model.loLoaders [] = .inl ld)
+    (hb : ld.beh = { steps := [], final := .setRaise }) :
+    ∃ s', Model.loRequire (f + 1) s n = (s', .err (.raised n)) ∧ s'.loaded n = .tbl (s.serial + 1) ∧
+      ∀ k, Model.loRequire (k + 1) s' n = (s', .ok (.tbl (s.serial + 1))) := by
+  have h := (require_runs_loader_under_sentinel f s n ld hun hl).1
+  rw [h]
+  simp only [runLoader, hb, runSteps, runFinal, finish, St.fresh]
+  refine ⟨_, rfl, by simp [St.logEv], fun k => ?_⟩
+  rw [Refine.loRequire_eq]
+  exact require_hit .assigned k _ n _ ⟨by simp [St.logEv], rfl⟩ (by simp)
+
+/-! ## the package fields are read when `require` runs, not when the library is opened -/
+
+/-- after `package.preload = {…}` an entry that stayed behind in the discarded table is no registration: the
+    preload searcher answers "no field package.preload[n]" … -/
+theorem discarded_preload_entry_is_gone (s : St) (n : Name) (keep : List Name) (hk : n ∉ keep) :
+    Model.loLoaderPreload (s.newPreload keep) n = .msg ["P:" ++ n] := by
+  simp [Model.loLoaderPreload, St.newPreload, hk]
+
+/-- … and a module registered in the NEW table — through L.PreloadModule or from Lua — is what `require` picks. -/
+theorem new_preload_table_is_consulted (s : St) (n : Name) (keep : List Name) (b : Beh) :
+    Model.loaderLoop (Model.preloadModule (s.newPreload keep) n b) n Model.loLoaders []
+      = .inl { src := .go, key := n, beh := b } ∧
+    Model.loaderLoop (stepWith (Model.loRequire 0) Model.registerModule (s.newPreload keep) (.preload n b)).1 n
+      Model.loLoaders [] = .inl { src := .lua, key := n, beh := b } := by
+  constructor <;> (rw [Refine.loaderLoop_eq]; simp [Spec.findLoader, Model.preloadModule, stepWith])
+
+/-- package.path is the string the field holds at the time of the call: candidates are computed from `s.path`
+    (whatever it was before), in the order of its templates. -/
+theorem path_is_read_per_call (s : St) (n : Name) (path' : String) :
+    Spec.candidates { s with path := path' } n =
+      (s.str.splitPath path').map (fun tmpl => s.str.subst tmpl (s.str.replaceDots n)) := rfl
+
+/-- the refinement holds over ANY searcher chain: if loRequire iterated over the chain the reference iterates
+    over, the two would agree on every state … -/
+theorem require_refines_spec_any_chain (chain : List Searcher) (f : Nat) (s : St) (n : Name) :
+    Model.loRequireL chain f s n = Spec.requireL .assigned chain f s n := Refine.loRequireL_eq chain f s n
+
+/-- … and require_once holds over any chain (scripted searchers included): -/
+theorem require_once_any_chain (chain : List Searcher) (f : Nat) (m : Name) (v : LV) (ops : List Op) (s : St)
+    (hc : Cached s m v) (hns : v ≠ .sentinel) (hno : ∀ o ∈ ops, o.resets m = false) :
+    Kept m v s (runWith (Model.loRequireL chain (f + 1)) Model.registerModule s ops).1 ∧
+    ∀ p ∈ ops.zip (runWith (Model.loRequireL chain (f + 1)) Model.registerModule s ops).2,
+      p.1 = .require m → p.2 = some (.ok v) := by
+  have hreq : Frame m v (Model.loRequireL chain (f + 1)) := by
+    intro s n hc; rw [Refine.loRequireL_eq]; exact requireL_frame .assigned chain m v (f + 1) s n hc
+  have hhit : ∀ s, Cached s m v → Model.loRequireL chain (f + 1) s m = (s, .ok v) := by
+    intro s hc; rw [Refine.loRequireL_eq]; exact requireL_hit .assigned chain f s m v hc hns
+  have hreg : RegFrame m v Model.registerModule := by
+    intro s n fs hne hc; rw [Refine.registerModule_eq]; exact register_frame m v s n fs hne hc
+  exact history_cached hreq hhit hreg ops s hc hno
+
+/-- FULL statement about a REPLACED package.loaders: Lua 5.1 reads the field `loaders` of the package table on every
+    call, so whatever chain a script assigns there is the one `require` uses. -/
+def replaced_loaders_honoured_full : Prop :=
+  ∀ (chain : List Searcher) (f : Nat) (s : St) (n : Name),
+    Model.loRequire f s n = Spec.requireL .assigned chain f s n
+
+/-- it is FALSE of gopher-lua (known finding C20-loaders-replaced): loRequire reads registry._LOADERS, the table
+    OpenPackage created, and never the field package.loaders. Witness: `package.loaders = {}`, then require of a
+    preloaded module — the reference finds nothing, gopher-lua loads it. -/
+theorem replaced_loaders_honoured_full_fails : ¬ replaced_loaders_honoured_full := by
+  intro h
+  have := congrArg (·.2) (h [] 3
+    { str := StrOps.simple,
+      preload := upd (fun _ => none) "a" (some { src := .lua, key := "a", beh := { steps := [], final := .ret } }) } "a")
+  revert this
+  decide
+
+/-- `_partial`: as long as the chain is the one in the table OpenPackage created (never replaced, or changed in
+    place — then `chain` below is its current content), the refinement holds. -/
+theorem replaced_loaders_honoured_partial (f : Nat) (s : St) (n : Name) :
+    Model.loRequire f s n = Spec.requireL .assigned Model.loLoaders f s n :=
+  Refine.loRequireL_eq Model.loLoaders f s n
+
 /-! ## missing_lists_tried -/
 
 /-- **missing_lists_tried** — no preload entry and none of the candidate files exists: the error names
@@ -194,7 +312,7 @@ theorem missing_lists_tried (f : Nat) (s : St) (n : Name)
   have h1 : Model.loaderLoop s n Model.loLoaders [] =
       .inr (.notFound n (("P:" ++ n) :: (Spec.candidates s n).map ("F:" ++ ·))) := by
     rw [Refine.loaderLoop_eq]; simp [Spec.findLoader, hp, hfind]
-  simp only [Model.loRequire, hun, h1]
+  simp only [Model.loRequire, Model.loRequireL, hun, h1]
   rfl
 
 /-! ## registered_reachable -/
@@ -280,6 +398,29 @@ example :
 example : Model.loRequire 5 exWorld "zz" = (exWorld, .err (.notFound "zz" ["P:zz", "F:zz"])) := by
   have := missing_lists_tried 4 exWorld "zz" rfl rfl (by decide)
   simpa [show Spec.candidates exWorld "zz" = ["zz"] from rfl] using this
+
+/-- a world for the failure stages: `b`'s file does not compile, `c`'s loader assigns and then raises. -/
+def failWorld : St :=
+  { str := StrOps.simple, path := "?",
+    files := upd (upd (fun _ => none) "b" (some {})) "c" (some { steps := [], final := .setRaise }),
+    broken := upd (fun _ => false) "b" true }
+
+example :
+    let r := Model.loRequire 5 failWorld "b"
+    r.2 = .err (.loadErr "b") ∧ r.1.loaded "b" = .nil ∧
+    (Model.loRequire 5 (r.1.writeFile "b" { steps := [], final := .ret }) "b").2 = .ok (.tbl 1) ∧
+    (let c := Model.loRequire 5 failWorld "c"
+     c.2 = .err (.raised "c") ∧ c.1.loaded "c" = .tbl 1 ∧ (Model.loRequire 5 c.1 "c").2 = .ok (.tbl 1) ∧
+       runsOf "c" (Model.loRequire 5 c.1 "c").1.log = 1) := by
+  decide
+
+/-- scripted searchers in the chain: a finder in front of the library's searchers wins, a silent one is skipped,
+    a talking one is listed. -/
+example :
+    (Spec.requireL .assigned [.silent, .finder "a" { steps := [], final := .ret }, .preload, .lua] 3 exWorld "a").2 = .ok (.tbl 1) ∧
+    (Spec.requireL .assigned [.says "x", .preload] 3 exWorld "zz").2 = .err (.notFound "zz" ["C:x", "P:zz"]) ∧
+    (Spec.requireL .assigned [] 3 exWorld "a").2 = .err (.notFound "a" []) := by
+  decide
 
 /-- the stated exception (as in Lua 5.1): a loader that returns `false` leaves `false` in package.loaded, which
     does not count as loaded — the next `require` runs it again. -/
